@@ -22,6 +22,7 @@ func init() {
 		},
 		Run: runC36,
 		Controls: []Control{
+			{Name: "neighbor-override-resets-both-directions", File: "cmd/bio-rd/config/bgp.go", Old: "\tif len(bn.Export) > 0 {\n\t\tbn.ExportFilterChain = filter.Chain{}\n\t}\n", New: "\tif len(bn.Export) > 0 || len(bn.Import) > 0 {\n\t\tbn.ExportFilterChain = filter.Chain{}\n\t}\n", Expect: "policy-override-is-per-direction"},
 			{Name: "reload-installs-the-configured-chain-raw", File: "protocols/bgp/server/peer.go", Old: "func (p *peer) replaceImportFilterChain(c filter.Chain) {\n\t// the same default as for a chain configured at start (see newPeer): no policy means reject all\n\tc = filterOrDefault(c)\n", New: "func (p *peer) replaceImportFilterChain(c filter.Chain) {\n", Expect: "in-place-policy-normalised-like-fresh-start"},
 			{Name: "refactor-normalise-at-each-store", Silent: true, File: "protocols/bgp/server/peer.go", Old: "func (p *peer) replaceExportFilterChain(c filter.Chain) {\n\t// the same default as for a chain configured at start (see newPeer): no policy means reject all\n\tc = filterOrDefault(c)\n", New: "func (p *peer) replaceExportFilterChain(c filter.Chain) {\n\teffective := filterOrDefault(c)\n\tc = effective\n"},
 			{Name: "route-filter-equality-by-base-address", File: "routingtable/filter/route_filter.go", Old: "\tif f.pattern != x.pattern {\n", New: "\tif f.pattern != x.pattern && f.pattern.BaseAddr() != x.pattern.BaseAddr() {\n", Expect: "chain-equality-is-not-coarser"},
@@ -42,6 +43,7 @@ func runC36(c *core.Ctx) {
 	addedPeerComesFromNewConfiguration(c)
 	chainEqualityIsNotCoarser(c)
 	inPlacePolicyIsNormalisedLikeAFreshStart(c)
+	neighborOverridesPerDirection(c)
 	p := c.P
 	newPeer := c.MustFunc(srv + ".newPeer")
 	needs := c.MustFunc(srv + ".(*PeerConfig).NeedsRestart")
